@@ -473,6 +473,13 @@ void observe_box(ctx<T, N> &c, obox<N> const &a)
       want[i] = a.lo[i] + (a.hi[i] - a.lo[i]) / 2;
     if (ce != want)
       vf::observation("center<" + c.tag + ">: differs from pos + size/2, e.g. " + show<N>(a) + " -> " + show<N>(ce) + " (observed only)");
+    // judged (consistency with the point set): the center of a non-empty box is one of its points
+    if (all_lt<N>(a.lo, a.hi))
+    {
+      VF_COUNT("center/nonempty-box");
+      if (!member<N>(a, ce))
+        c.bad("center", "outside-the-box", "box " + show<N>(a) + " center " + show<N>(ce));
+    }
   }
   {
     auto const iv = fcppt::math::box::interval<0>(b1);
